@@ -15,6 +15,7 @@ mod fam_ext;
 mod fam_ffi;
 mod fam_format;
 mod fam_formats;
+mod fam_front;
 mod fam_partial;
 mod fam_pset;
 mod fam_robust;
@@ -28,6 +29,7 @@ mod fam_syntax;
 mod fam_tpe;
 mod fam_validate;
 mod gen;
+mod gen_typed;
 mod render;
 
 use serde_json::{json, Value as J};
@@ -78,6 +80,7 @@ fn family(name: &str) -> Option<(Runner, Driver)> {
         "partial" => (fam_partial::run, fam_partial::drive),
         "tpe" => (fam_tpe::run, fam_tpe::drive),
         "query" => (fam_tpe::run_query, fam_tpe::drive),
+        "typedgen" => (gen_typed::run, gen_typed::drive),
         "batched" => (fam_batched::run, fam_batched::drive),
         "slice" => (fam_slice::run, fam_slice::drive),
         "syntax" => (fam_syntax::run, fam_syntax::drive),
@@ -86,6 +89,7 @@ fn family(name: &str) -> Option<(Runner, Driver)> {
         "symcc" => (fam_symcc::run, fam_symcc::drive),
         "robust" => (fam_robust::run, fam_robust::drive),
         "formats" => (fam_formats::run, fam_formats::drive),
+        "front" => (fam_front::run, fam_front::drive),
         "schemasyn" => (fam_schemasyn::run, fam_schemasyn::drive),
         "entityjson" => (fam_entityjson::run, fam_entityjson::drive),
         _ => return None,
